@@ -18,7 +18,7 @@ from ..util import (has_call, find_calls, assigned_value, const_str, unparse, kw
                     guards_of, call_tail, control_ancestors, node_ast_for_effects)
 from .. import mutate as M
 
-TECHNIQUE = 'static analysis: typestate over the CFG of get_set/rmv with guard/effect summaries extracted from the lock helpers, finite-domain invariant check of the protocol, guarded-by rule for the shared counter, failed-population rule, process-local-source rule for the slot index'
+TECHNIQUE = 'static analysis: typestate over the CFG of get_set/rmv with guard/effect summaries extracted from the lock helpers, finite-domain invariant check of the protocol, guarded-by rule for the shared counter, failed-population rule, process-local-source rule for the slot index, provenance of the shared counter array and lock handed to workers, single path authority of the disk cacher'
 
 EXPLANATION = ("Typestate analysis of ConcurrentCacher: (1) guards/effects of the five lock helpers on the shared counter and the "
                "per-thread lock cell are extracted from their source; (2) get_set, rmv and the context-manager helper are "
@@ -52,6 +52,48 @@ def run(ctx):
     r8_slot_index(ctx)
     r9_presence_agreement(ctx)
     r10_getters_do_not_restart(ctx)
+    r11_shared_counters(ctx)
+    r12_one_path_authority(ctx)
+
+
+def r11_shared_counters(ctx, rule="C19.R11"):
+    """Mutual exclusion BETWEEN PROCESSES rests on every worker counting readers / writers in the same memory: ConcurrentCacher falls back to a private list when it is
+    given no array, and nothing in a worker would notice."""
+    ctx.rule(rule, "the cacher sent to worker processes shares its counters: in CobaMultiprocessor.filter ConcurrentCacher receives, besides the cacher, an array created by "
+                   "<spawn context>.RawArray / Array and a lock created by <spawn context>.Lock (positionally or as list= / lock=)")
+    MPF = "coba/multiprocessing.py"
+    fn = ctx.fn(MPF, "CobaMultiprocessor.filter")
+    calls = [c for c in ast.walk(fn) if isinstance(c, ast.Call) and call_name(c) == "ConcurrentCacher"]
+    ctx.floor(rule, "ConcurrentCacher constructions in CobaMultiprocessor.filter", len(calls), 1)
+    init = ctx.fn(CCH, "ConcurrentCacher.__init__")
+    params = [a.arg for a in init.args.args[1:]]
+    for c in calls:
+        got = dict(zip(params, c.args))
+        got.update({k.arg: k.value for k in c.keywords if k.arg})
+
+        def made_by(e, makers):
+            vs = [e] if not isinstance(e, ast.Name) else assigned_value(fn, e.id)
+            return len(vs) == 1 and isinstance(vs[0], ast.Call) and call_tail(vs[0]) in makers and isinstance(vs[0].func, ast.Attribute)
+        arr = got.get(params[1]) if len(params) > 1 else None
+        lck = got.get(params[2]) if len(params) > 2 else None
+        ctx.ob(rule, MPF, "CobaMultiprocessor.filter", c, "the workers' cacher counts in a shared array under a shared lock", arr is not None and lck is not None and made_by(arr, ("RawArray", "Array")) and made_by(lck, ("Lock", "RLock")),
+               detail={"array": unparse(arr) if arr is not None else None, "lock": unparse(lck) if lck is not None else None})
+
+
+def r12_one_path_authority(ctx, rule="C19.R12"):
+    """contains / get / put / rmv / get_set must all mean the same file: the cache directory may start with ~ (the default does), which only _cache_path expands."""
+    ctx.rule(rule, "DiskCacher names a cache file through _cache_path only: no other method builds a Path / joins the directory with a name of its own")
+    cls = ctx.model.cls(CCH, "DiskCacher")
+    n = 0
+    for name, fn in sorted(cls.methods.items()):
+        if name in ("_cache_path", "__init__", "cache_directory"):
+            continue
+        n += 1
+        own = [c for c in ast.walk(fn) if isinstance(c, ast.Call) and (call_name(c) in ("Path", "pathlib.Path", "os.path.join", "join") or call_tail(c) == "joinpath")
+               and any("_cache_dir" in unparse(a) or "_cache_name" in unparse(a) for a in c.args)
+               and not (len(c.args) == 1 and isinstance(parent(c), ast.Attribute) and parent(c).attr == "expanduser")]   # the directory itself, expanded (mkdir)
+        ctx.ob(rule, CCH, f"DiskCacher.{name}", (own or [fn])[0], "the file is named by self._cache_path(key)", not own, trivial=not own, detail={"own paths": [unparse(c) for c in own]})
+    ctx.floor(rule, "DiskCacher methods examined", n, 4)
 
 
 # ------------------------------------------------------------------------------------------ R1
@@ -597,6 +639,8 @@ def r9_presence_agreement(ctx, rule="C19.R9"):
 
 
 CONTROLS = [
+    ("workers count readers and writers in private lists", "coba/multiprocessing.py", M.replace_expr("CobaMultiprocessor.filter", "ConcurrentCacher(CobaContext.cacher, array, lock)", "ConcurrentCacher(CobaContext.cacher, lock=lock)"), "C19.R11"),
+    ("rmv names the file without expanding ~", CCH, M.replace_stmt("DiskCacher.rmv", lambda st: isinstance(st, ast.If), "path = Path(self._cache_dir, self._cache_name(key))\nif path.exists(): path.unlink()"), "C19.R12"),
     ("openml download restarts behind a partial body", "coba/environments/openml.py", M.replace_expr("OpenmlSource._http_request", "tries == 3 or n_lines", "tries == 3"), "C19.R10"),
     ("get_set releases on Exception only", CCH, M.replace_stmt("ConcurrentCacher.get_set", lambda st: isinstance(st, ast.Try),
         "try:\n    self._acquire_write_lock(key)\n    item = self._cache.get_set(key, getter)\n    self._switch_write_to_read_lock(key)\n    return self._release_read_on_exit(key, item)\nexcept Exception as e:\n    if self._has_read_lock(key): self._release_read_lock(key)\n    if self._has_write_lock(key): self._release_write_lock(key)\n    raise"), "C19.R2"),
